@@ -1,0 +1,21 @@
+//go:build verif
+
+// Contracts for filename / path validation (C07), checked by /verif/govc (comment-only file).
+package absnfs
+
+// A validated name component, transcribed from the property statement: non-empty, at most 255 bytes,
+// free of '/', '\' and NUL, and not "." or "..".
+//@ specdef validComp(name string) bool = len(name) > 0 && len(name) <= 255 && forall(i, 0, len(name), name[i] != '/' && name[i] != '\\' && name[i] != 0) && name != "." && name != ".."
+
+//@ func validateFilename
+//@ prop C07
+//@ pure
+//@ ensures [ok-iff-valid] result == NFS_OK <==> validComp(name)
+//@ ensures [status] result == NFS_OK || result == NFSERR_INVAL || result == NFSERR_NAMETOOLONG
+//@ ensures [toolong] len(name) > 255 ==> result == NFSERR_NAMETOOLONG
+
+//@ func validateMode
+//@ prop C07
+//@ pure
+//@ ensures [ok-iff] result == NFS_OK <==> mode < 4096
+//@ ensures [status] result == NFS_OK || result == NFSERR_INVAL
